@@ -34,7 +34,7 @@ def run(chk, replay=None):
     rng = random.Random(chk.seed)
     th = chk.tier == 'thorough'
     cases = streams.fixture_lines() + streams.anyjson_lines(rng, 2500 if th else 500) + streams.grammar_lines(rng, 1500 if th else 300) + streams.search_lines(rng, None if th else 400)
-    cfgs = streams.value_cfgs(rng, 10 if th else 4) + [Cfg(encrypt=True, key=streams.KEY, nss=True, ips=True)]
+    cfgs = streams.value_cfgs(rng, 10 if th else 4) + [Cfg(encrypt=True, key=streams.KEY, nss=True, ips=True), Cfg(eager=['shop.events', 'app_db', 'mydb.users'], nums=True)]
     streams.note_distribution(chk, cases)
     chk.rule = ("arbitrary JSON lines over all components (numbers of every notation/magnitude) and grammar lines x flag sets; the non-zone part of the tree "
                 "(zones masked by an independent key-path predicate) must be identical; non-trivial = distinct (flags, masked input) pairs")
@@ -50,6 +50,10 @@ def run(chk, replay=None):
             if mi != mm:
                 chk.disagree('non-zone projection', {'cfg': cfg.describe(), 'input': l.decode('utf-8', 'replace')}, str(mi)[:400], str(mm)[:400])
             if not isinstance(io, bytes): continue
+            if cfg.eager:
+                # field-name mode renames keys by design on lines of a selected namespace: the frame oracle applies to the OTHER lines
+                ns = jtree.get(jtree.get(tin, 'attr'), 'ns') if jtree.get(tin, 'attr') is not None else None
+                if isinstance(ns, str) and any(ns.startswith(e.decode()) for e in cfg.eager): continue
             expect = jtree.dumps(jtree.mask(tin, zones.zone_pred(tin, cfg)))
             chk.nontriv((ci, expect))
             if mi != expect:
